@@ -6,6 +6,8 @@ def pytest_configure(config):
     log = os.environ.get("VERIF_AMBIENT_LOG")
     if not log:
         return
+    from vf import reach
+    reach.install()
     import dadi
     from vf import ambient
     ambient.install(dadi, "%s.%d" % (log, os.getpid()), kernel_tap=os.environ.get("VERIF_AMBIENT_TAP", "0") == "1")
